@@ -48,6 +48,7 @@ LABELS = {
     24: ("get_iter", r"del self\._plugin_class_registry\[k\]", 0),
     25: ("is_stored", r"plugin = self\._plugin_class_registry\[target\]$", 0),
     26: ("stored_dependencies", r"plugin = self\._plugin_class_registry\[target\]\(\)", 0),
+    27: ("get_iter", r"self\._plugin_class_registry = self\._plugin_class_registry\.copy\(\)", 0),
 }
 WRITE_LABELS = {10, 12, 13, 17, 19, 24}
 
@@ -114,6 +115,7 @@ class Worker:
         self.budget = 0         # labelled lines the thread may still execute before handing the baton back
         self.blocked = False    # waiting for a lock of the code under test
         self.nblocked = 0
+        self.protocol = []      # breaches of the locking protocol the model relies on
         self.thread = None
 
 
@@ -132,8 +134,14 @@ class BatonLock:
         w = self.inter.current()
         if w is None:
             return self.fallback.acquire(blocking, timeout)
+        if self.owner != w.tid and w.budget <= 0:
+            # entering a locked section is a yield point: a thread whose budget is used up stops BEFORE
+            # taking the lock (so a schedule of whole sections never leaves a parked thread inside one)
+            self.inter._wait_baton(w)
         while self.owner is not None and self.owner != w.tid:
             self.inter._blocked(w)
+        if self.depth == 0:
+            self.inter.lock_log.append(w.tid)
         self.owner = w.tid
         self.depth += 1
         return True
@@ -159,6 +167,10 @@ class Interleaver:
     def __init__(self, timeout=120.0):
         self.tls = threading.local()
         self.shimmed = {}
+        self.locks = []
+        self.n_locks = 0
+        self.lock_log = []      # thread ids in the order in which they entered a locked section
+        self.on_hit = None
         self.by_code, self.unlabelled_lines = resolve_labels()
         self.file = sctx.__file__
         self.cv = threading.Condition()
@@ -185,6 +197,8 @@ class Interleaver:
                     if lab is not None:
                         if not after_exc:
                             self._park(w, lab)
+                            if self.on_hit is not None:
+                                self.on_hit(w, lab, frame)
                         return local
                 if frame.f_lineno in unl:
                     w.unlabelled.append((frame.f_code.co_name, frame.f_lineno))
@@ -225,11 +239,26 @@ class Interleaver:
                 self.cv.wait()
             w.blocked = False
 
+    def _wait_baton(self, w):
+        with self.cv:
+            w.parked_at = "lock"
+            self.active = None
+            self.cv.notify_all()
+            while self.active != w.tid:
+                self.cv.wait()
+            w.parked_at = None
+
     def _install_lock_shims(self):
         for name, val in list(vars(sctx).items()):
             if isinstance(val, _LOCK_TYPES):
                 self.shimmed[name] = val
-                setattr(sctx, name, BatonLock(self))
+                lk = BatonLock(self)
+                self.locks.append(lk)
+                setattr(sctx, name, lk)
+        self.n_locks = len(self.locks)
+
+    def holds_lock(self, w):
+        return any(lk.owner == w.tid and lk.depth > 0 for lk in self.locks)
 
     def _remove_lock_shims(self):
         for name, val in self.shimmed.items():
